@@ -144,7 +144,7 @@ func LoadProgram(repo, mirror string) (*Program, error) {
 	// overlay: contract files that are missing in the repo come from the mirror
 	overlay := map[string][]byte{}
 	for d, short := range pkgDirs {
-		if f, ok := cs.Files[short]; ok && !strings.HasPrefix(f, repo) {
+		if f, ok := cs.Files[short]; ok && !strings.HasPrefix(f, repo+"/") {
 			data, _ := os.ReadFile(f)
 			overlay[filepath.Join(repo, d, contractFileName)] = data
 		}
@@ -420,6 +420,14 @@ func synthesize(prog *Program) (map[string]string, map[string]*SpecFn, error) {
 			}
 		}
 		for _, c := range con.Asserts {
+			if c.At == "return" {
+				// checked at every return with the function-level locals in scope
+				lparams, lroles := localsParams(pkg, fi, &ast.Ident{NamePos: fi.Decl.Body.Rbrace - 1}, sigParams, roles)
+				if err := emit(con.Pkg, c, tparams, lparams, lroles, "bool"); err != nil {
+					return nil, nil, err
+				}
+				continue
+			}
 			site := findCallSite(prog, fi, c.At)
 			if site == nil {
 				return nil, nil, fmt.Errorf("%s:%d: at-clause names call %q which does not exist in %s (contract key no longer matches; engine error)", c.File, c.Line, c.At, key)
